@@ -76,7 +76,6 @@ fn hist_fens(current: &Board) -> String {
 }
 
 pub struct PosCheck<'a> {
-    pub mg: &'a MoveGenerator,
     pub rep: &'a Report,
     pub which: Which,
     pub tally: Tally,
@@ -118,9 +117,8 @@ fn count_checkers(p: &Pos) -> usize {
 }
 
 impl<'a> PosCheck<'a> {
-    pub fn new(mg: &'a MoveGenerator, rep: &'a Report, which: Which) -> Self {
+    pub fn new(_mg: &MoveGenerator, rep: &'a Report, which: Which) -> Self {
         PosCheck {
-            mg,
             rep,
             which,
             tally: Tally::default(),
@@ -460,7 +458,7 @@ pub fn run(which: Which, tier: &str, seed: u64, out: &str) {
         }
     };
     let mg = MoveGenerator::new();
-    let pc = PosCheck::new(&mg, &rep, which);
+    let pc = PosCheck::new(crate::eng::tl_mg(), &rep, which);
     let roots = match roots::all_roots() {
         Ok(r) => r,
         Err(e) => {
@@ -567,7 +565,7 @@ pub fn run(which: Which, tier: &str, seed: u64, out: &str) {
 
     // ---- C17(b): the move list the real quiescence search uses at every node it reaches
     if which == Which::C17 && !rep.saturated() {
-        let tq = trace_part(&mg, &rep, &roots, thorough);
+        let tq = trace_part(crate::eng::tl_mg(), &rep, &roots, thorough);
         total_states += tq.0;
         total_transitions += tq.1;
         coverage.put(
@@ -630,7 +628,7 @@ pub fn run(which: Which, tier: &str, seed: u64, out: &str) {
 pub fn replay_one(which: Which, fen: &str) -> i32 {
     let rep = Report::new(which.id(), "quick", 0);
     let mg = MoveGenerator::new();
-    let pc = PosCheck::new(&mg, &rep, which);
+    let pc = PosCheck::new(crate::eng::tl_mg(), &rep, which);
     let p = match Pos::from_fen(fen) {
         Ok(p) => p,
         Err(e) => {
@@ -708,7 +706,7 @@ fn trace_part(mg: &MoveGenerator, rep: &Report, roots: &[roots::Root], thorough:
                 // quiescence node searches does not depend on the game so far
                 let pre = guard(|| {
                     let mut f = Searcher::new();
-                    for m in mg.generate_moves(b) {
+                    for m in crate::eng::tl_mg().generate_moves(b) {
                         let c = b.clone_with_move(&m);
                         f.push_position(&c);
                         f.push_position(&c);
@@ -939,7 +937,7 @@ pub fn replay_exam_one(start_fen: &str, node_fen: &str, cap: u64, phase: u8) -> 
 pub fn replay_hist(which: Which, fens: &str) -> i32 {
     let rep = Report::new(which.id(), "quick", 0);
     let mg = MoveGenerator::new();
-    let pc = PosCheck::new(&mg, &rep, which);
+    let pc = PosCheck::new(crate::eng::tl_mg(), &rep, which);
     for f in fens.split('|') {
         match eng::board_of_fen(f) {
             Ok(b) => {
